@@ -1,7 +1,230 @@
-(* C36 - Namespace catalog behaves as a hierarchical map.  (statements are being added) *)
-From LanceV Require Import Common.Base Ns.Model_Namespace.
+(* C36 - Namespace catalog behaves as a hierarchical map.  Property theorems only.
+   Model: Ns/Model_Namespace.v, a transcription of rust/lance-namespace-impls/src/dir.rs and dir/manifest.rs.
+     impl_run mode ops   answers of the implementation model: keys are object-id STRINGS (`a$b$c`), every
+                         query is the SQL text of manifest.rs with the name spliced between quotes and run
+                         through a model of the tokenizer/parser; table directories are computed from names
+                         the three ways the code does (PathPart, Url::join, plain path)
+     map_run mode ops    the same operations over the finite map keyed by PATHS (lists of names)
+     typed_run mode ops  the path-keyed map in which an existence check honours the kind it asks for
+   mode: 0 directory only, 1 manifest only, 2 dual.  Operation lists are arbitrary (any length, any
+   interleaving of create / drop / describe / exists / list / register / deregister, ids of any depth).
+   Proofs: Ns/Proofs_Namespace.v (strings, paging), Ns/Proofs_NamespaceRefine.v (simulation),
+   Ns/Proofs_NamespaceMap.v (typed map, frame, directories). *)
+From LanceV Require Import Common.Base Ns.Model_Namespace Ns.Proofs_Namespace Ns.Proofs_NamespaceRefine
+  Ns.Proofs_NamespaceMap.
+From Coq Require Import Sorting.Permutation.
 Local Open Scope N_scope.
 
-Example C36_model_runs :
-  impl_run 1 [OCreateNs [[97]]; ONsExists [[97]]] = [ADone; ADone].
+(* ---------------------------------------------------------------- object ids *)
+
+(* On names without `$` (empty names included) build_object_id is injective and parse_object_id inverts it. *)
+Theorem C36_injective : forall ns name ns' name',
+  Forall (fun s => has_char DOLLAR s = false) ns -> has_char DOLLAR name = false ->
+  Forall (fun s => has_char DOLLAR s = false) ns' -> has_char DOLLAR name' = false ->
+  parse_object_id (build_object_id ns name) = (ns, name)
+  /\ (build_object_id ns name = build_object_id ns' name' -> ns = ns' /\ name = name').
+Proof.
+  intros ns name ns' name' H1 H2 H3 H4. split.
+  - exact (parse_build ns name H1 H2).
+  - exact (build_injective ns name ns' name' H1 H2 H3 H4).
+Qed.
+Print Assumptions C36_injective.
+
+(* The exact predicate: a name is stored faithfully when every character is a letter, a digit or one of
+   ! & ( ) + , - . ; = @ _   (the empty name is allowed).  Such a name has no `$` and no `'`, and spliced
+   between quotes it denotes itself. *)
+Theorem C36_storable_literal : forall n, storable n = true ->
+  has_char DOLLAR n = false /\ has_char QUOTE n = false /\ lex_splice n = SLit n.
+Proof.
+  intros n H. split; [exact (storable_nodollar n H)|]. split; [exact (storable_noquote n H)|].
+  exact (lex_splice_noquote n (storable_noquote n H)).
+Qed.
+Print Assumptions C36_storable_literal.
+
+(* ---------------------------------------------------------------- refinement *)
+
+(* For EVERY operation sequence over storable names, in every mode, every answer of the implementation
+   model - Ok values and error kinds alike - is the answer of the path-keyed map. *)
+Theorem C36_refines_map : forall mode ops,
+  Known_C36_delimiter_or_quote_in_name ops = false -> Known_C36_path_unsafe_name ops = false ->
+  impl_run mode ops = map_run mode ops.
+Proof. intros mode ops H1 H2. apply impl_refines_map. apply storable_of_classes; assumption. Qed.
+Print Assumptions C36_refines_map.
+
+(* ... and, when no step addresses a key that holds the other kind of object, of the typed map. *)
+Theorem C36_refines_typed_map : forall mode ops,
+  Known_C36_delimiter_or_quote_in_name ops = false -> Known_C36_path_unsafe_name ops = false ->
+  Known_C36_kind_confusion mode ops = false ->
+  impl_run mode ops = typed_run mode ops.
+Proof. intros mode ops H1 H2 H3. rewrite (C36_refines_map mode ops H1 H2). apply map_is_typed. exact H3. Qed.
+Print Assumptions C36_refines_typed_map.
+
+(* Operations on one key leave every other key untouched: after any history (without an empty
+   register_table location) the rows of every key other than the operation's own id are unchanged. *)
+Theorem C36_frame : forall mode ops o q,
+  Known_C36_register_empty_location ops = false -> q <> op_id o ->
+  let s := snd (run path_prims mode init ops) in
+  lookup q (rows (snd (step path_prims mode s o))) = lookup q (rows s).
+Proof. exact frame_run. Qed.
+Print Assumptions C36_frame.
+
+(* What the typed map answers in manifest mode: existence is membership with the right kind, a listing is
+   the sorted last components of the keys whose parent is the listed namespace. *)
+Theorem C36_typed_map_answers : forall s id tok lim, dead s = false ->
+  (id <> [] -> fst (step typed_prims 1 s (OTableExists id)) = if holds true id (rows s) then ADone else AFail E_NS)
+  /\ (id <> [] -> fst (step typed_prims 1 s (ONsExists id)) = if holds false id (rows s) then ADone else AFail E_NS)
+  /\ fst (step typed_prims 1 s (OListTables id tok lim)) =
+     ANames (sort_names (map (fun r => last (r_key r) [])
+                             (filter (fun r => Bool.eqb (r_tab r) true && parent_is id (r_key r)) (rows s)))).
+Proof.
+  intros s id tok lim Hd. split; [|split].
+  - intro Hid. apply typed_table_exists; assumption.
+  - intro Hid. apply typed_ns_exists; assumption.
+  - apply typed_list_tables. exact Hd.
+Qed.
+Print Assumptions C36_typed_map_answers.
+
+(* map laws: a table that has just been created exists, a table that has just been dropped does not *)
+Theorem C36_create_drop_laws : forall s id l v,
+  (fst (step typed_prims 1 s (OCreateEmptyTable id)) = ALoc l v ->
+   fst (step typed_prims 1 (bump (snd (step typed_prims 1 s (OCreateEmptyTable id)))) (OTableExists id)) = ADone)
+  /\ (locs_ok s -> fst (step typed_prims 1 s (ODropTable id)) = ALoc l v ->
+      fst (step typed_prims 1 (bump (snd (step typed_prims 1 s (ODropTable id)))) (OTableExists id)) = AFail E_NS).
+Proof. intros s id l v. split; [apply create_then_exists | apply drop_then_gone]. Qed.
+Print Assumptions C36_create_drop_laws.
+
+(* The directory of a table with a storable id is the same whichever way the code computes it
+   (base_path.child, construct_full_uri, table_full_uri), and different tables get different directories. *)
+Theorem C36_locations_faithful : forall n k id, storable n = true -> storable_path id = true ->
+  (child_key (n ++ DOT_LANCE) = [n ++ DOT_LANCE] /\ resolve_url (n ++ DOT_LANCE) = [n ++ DOT_LANCE]
+   /\ resolve_plain (n ++ DOT_LANCE) = [n ++ DOT_LANCE])
+  /\ (let dn := (NONCE0 + k) :: USCORE :: join_dollar id in child_key dn = [dn] /\ resolve_url dn = [dn]).
+Proof.
+  intros n k id Hn Hid. split; [apply root_table_dir_faithful; exact Hn | apply hashed_table_dir_faithful; exact Hid].
+Qed.
+Print Assumptions C36_locations_faithful.
+
+(* ---------------------------------------------------------------- paging *)
+
+(* apply_pagination (root listing of directory and dual mode): for every page size n >= 1, paging with
+   page_token = last name of the previous page until a page is empty returns the sorted listing: every
+   name exactly once, no page longer than n. *)
+Theorem C36_paging : forall names n fuel,
+  NoDup names -> (1 <= n)%Z -> (length names < fuel)%nat ->
+  concat (pages fuel names None n) = sort_names names
+  /\ Forall (fun p => (length p <= Z.to_nat n)%nat /\ p <> []) (pages fuel names None n)
+  /\ NoDup (concat (pages fuel names None n))
+  /\ (forall x, In x names <-> In x (concat (pages fuel names None n))).
+Proof. exact paging_complete. Qed.
+Print Assumptions C36_paging.
+
+(* the directory-mode listing IS apply_pagination of the table directories *)
+Theorem C36_paging_is_used : forall s tok lim,
+  fst (step string_prims 0 s (OListTables [] tok lim)) = ANames (apply_pagination (dir_tables (dsk s)) tok lim).
+Proof. reflexivity. Qed.
+Print Assumptions C36_paging_is_used.
+
+(* ---------------------------------------------------------------- refuted parts (reproduced on the real code) *)
+
+(* F10. "Names that cannot be stored faithfully are rejected" is false: a name with `$` is accepted and
+   aliases another path; a name with `'` selects another object. *)
+Definition rejects_unstorable (mode : N) (ops : list op) : Prop :=
+  forall i o a, nth_error ops i = Some o -> nth_error (impl_run mode ops) i = Some a ->
+                storable_op o = false -> exists k, a = AFail k.
+
+Theorem C36_rejects_unstorable_refuted :
+  exists mode ops, Known_C36_delimiter_or_quote_in_name ops = true /\ ~ rejects_unstorable mode ops.
+Proof.
+  exists 1, [OCreateNs [[120; 36; 121]]; ONsExists [[120]; [121]]]. split; [reflexivity|].
+  intro H. destruct (H 0%nat (OCreateNs [[120; 36; 121]]) ADone eq_refl eq_refl eq_refl) as [k Hk]. discriminate.
+Qed.
+Print Assumptions C36_rejects_unstorable_refuted.
+
+(* the aliases themselves: x$y is served as (x, y); (a, b$c) as (a, b, c); a'$'b as a; and
+   drop_table(a'$'b) removes the catalog *)
+Theorem C36_delimiter_or_quote_in_name_refuted :
+  impl_run 1 [OCreateNs [[120; 36; 121]]; ONsExists [[120]; [121]]; OListNs [] None None] = [ADone; ADone; ANames []]
+  /\ impl_run 1 [OCreateNs [[97]]; OCreateNs [[97]; [98]]; OCreateEmptyTable [[97]; [98; 36; 99]];
+                 OTableExists [[97]; [98]; [99]]; OListTables [[97]] None None; OListTables [[97]; [98]] None None]
+     = [ADone; ADone; ALoc [35; 95; 97; 36; 98; 36; 99] false; ADone; ANames []; ANames [[99]]]
+  /\ impl_run 1 [OCreateNs [[97]]; OTableExists [[97; 39; 36; 39; 98]]; ODropTable [[97; 39; 36; 39; 98]];
+                 OListNs [] None None]
+     = [ADone; ADone; ALoc [] false; AFail E_IO]
+  /\ impl_run 1 [OCreateEmptyTable [[120; 39; 39; 121]]; OTableExists [[120; 39; 39; 121]]]
+     = [ALoc [35; 95; 120; 39; 39; 121] false; AFail E_NS]
+  /\ impl_run 1 [OTableExists [[39; 47; 98; 39]]] = [APanic].
+Proof. vm_compute. repeat split; reflexivity. Qed.
+Print Assumptions C36_delimiter_or_quote_in_name_refuted.
+
+(* `/` and non-ASCII names: the dataset and the directory the catalog removes differ (drop_table fails after
+   the row is gone); the children filter of a non-ASCII namespace lists a grandchild *)
+Theorem C36_path_unsafe_name_refuted :
+  Known_C36_path_unsafe_name [OCreateTable [[99; 47; 100]]] = true
+  /\ impl_run 1 [OCreateTable [[99; 47; 100]]; ODropTable [[99; 47; 100]]; OTableExists [[99; 47; 100]]]
+     = [ALoc [35; 95; 99; 47; 100] true; AFail E_NS; AFail E_NS]
+  /\ impl_run 1 [OCreateNs [[233; 233]]; OCreateNs [[233; 233]; [97]]; OCreateEmptyTable [[233; 233]; [97]; [98]];
+                 OListTables [[233; 233]] None None]
+     = [ADone; ADone; ALoc [35; 95; 233; 233; 36; 97; 36; 98] false; ANames [[98]]]
+  /\ map_run 1 [OCreateNs [[233; 233]]; OCreateNs [[233; 233]; [97]]; OCreateEmptyTable [[233; 233]; [97]; [98]];
+                OListTables [[233; 233]] None None]
+     = [ADone; ADone; ALoc [35; 95; 233; 233; 36; 97; 36; 98] false; ANames []].
+Proof. vm_compute. repeat split; reflexivity. Qed.
+Print Assumptions C36_path_unsafe_name_refuted.
+
+(* kind confusion: table_exists of a namespace; drop_namespace deletes a table *)
+Theorem C36_kind_confusion_refuted :
+  let ops := [OCreateNs [[110]]; OTableExists [[110]]; OCreateEmptyTable [[116]]; ODropNs [[116]]; OTableExists [[116]]] in
+  Known_C36_kind_confusion 1 ops = true
+  /\ impl_run 1 ops = [ADone; ADone; ALoc [35; 95; 116] false; ADone; AFail E_NS]
+  /\ typed_run 1 ops = [ADone; AFail E_NS; ALoc [35; 95; 116] false; AFail E_NS; ADone].
+Proof. vm_compute. repeat split; reflexivity. Qed.
+Print Assumptions C36_kind_confusion_refuted.
+
+(* manifest listings ignore limit and page_token *)
+Theorem C36_manifest_listing_ignores_paging_refuted :
+  let ops := [OCreateEmptyTable [[97]]; OCreateEmptyTable [[98]]; OListTables [] None (Some 1%Z); OListTables [] (Some [97]) None] in
+  Known_C36_manifest_listing_ignores_paging 1 ops = true
+  /\ impl_run 1 ops = [ALoc [35; 95; 97] false; ALoc [35; 95; 98] false; ANames [[97]; [98]]; ANames [[97]; [98]]].
+Proof. vm_compute. repeat split; reflexivity. Qed.
+Print Assumptions C36_manifest_listing_ignores_paging_refuted.
+
+(* dual mode: a name is listed twice *)
+Theorem C36_dual_listing_duplicate_name_refuted :
+  let ops := [OCreateEmptyTable [[97]]; OCreateEmptyTable [[98]]; ODeregisterTable [[97]];
+              ORegisterTable [[97]] [98; 46; 108; 97; 110; 99; 101]; OListTables [] None None] in
+  Known_C36_dual_listing_duplicate_name 2 ops = true
+  /\ nth_error (impl_run 2 ops) 4 = Some (ANames [[97]; [97]; [98]]).
+Proof. vm_compute. repeat split; reflexivity. Qed.
+Print Assumptions C36_dual_listing_duplicate_name_refuted.
+
+(* register_table with an empty location, then drop_table: the whole catalog is removed *)
+Theorem C36_register_empty_location_refuted :
+  let ops := [OCreateEmptyTable [[116]]; ORegisterTable [[114]] []; ODropTable [[114]]; OTableExists [[116]]] in
+  Known_C36_register_empty_location ops = true
+  /\ Known_C36_delimiter_or_quote_in_name ops = false /\ Known_C36_path_unsafe_name ops = false
+  /\ impl_run 1 ops = [ALoc [35; 95; 116] false; ALoc [114; 58] false; ALoc [] false; AFail E_IO].
+Proof. vm_compute. repeat split; reflexivity. Qed.
+Print Assumptions C36_register_empty_location_refuted.
+
+(* ---------------------------------------------------------------- non-vacuity *)
+
+(* a history of nested namespaces and tables over storable names (".", "-", digits, an empty name) that is
+   outside every class, with its answers *)
+Example C36_nonvacuous :
+  let a := [97] in let dot := [46; 46] in let t := [116; 46; 49] in
+  let ops := [OCreateNs [a]; OCreateNs [a; dot]; OCreateNs [a; dot; []]; OCreateEmptyTable [a; dot; t];
+              OCreateTable [a; t]; OListTables [a; dot] None None; OListNs [a] None None;
+              ODropNs [a; dot]; ODropTable [a; dot; t]; ODropNs [a; dot; []]; ODropNs [a; dot]; OTableExists [a; t];
+              ODescribeTable [a; t]; OListNs [a] None None] in
+  Known_C36_delimiter_or_quote_in_name ops = false /\ Known_C36_path_unsafe_name ops = false
+  /\ Known_C36_kind_confusion 2 ops = false /\ Known_C36_register_empty_location ops = false
+  /\ impl_run 2 ops = [ADone; ADone; ADone; ALoc [35; 95; 97; 36; 46; 46; 36; 116; 46; 49] false;
+                       ALoc [35; 95; 97; 36; 116; 46; 49] true; ANames [t]; ANames [dot];
+                       AFail E_NS; ALoc [35; 95; 97; 36; 46; 46; 36; 116; 46; 49] false; ADone; ADone; ADone;
+                       ALoc [35; 95; 97; 36; 116; 46; 49] true; ANames []]
+  /\ typed_run 2 ops = impl_run 2 ops.
+Proof. vm_compute. repeat split; reflexivity. Qed.
+
+Example C36_paging_nonvacuous :
+  pages 10 [[98]; [97]; [99]; [97; 97]; [66]] None 2 = [[[66]; [97]]; [[97; 97]; [98]]; [[99]]].
 Proof. vm_compute. reflexivity. Qed.
